@@ -131,6 +131,9 @@ def build_tree():
 # entry = ("s", suffix) | ("re", pattern)
 STR_ENTRIES = [("s", x) for x in [".js", ".JS", ".py", ".html", ".tar.gz", ".c++", ".c", ".min.js", ".d.ts", ".gz", "js"]]
 RE_ENTRIES = [("re", x) for x in [r"\.js$", r"(?i)\.js$", r"^sub/", r"/deep/", r"^[^/]*$", ROOT_MARK, r".*", r"we\(ird"]]
+# entries that EQUAL another entry in their source text but not in meaning: a compiled pattern whose text is the suffix string
+# ".js" (matches `ajs`, `.JS` no), and the pattern r"\.js$" compiled with re.IGNORECASE (kind "rei")
+RE_ENTRIES += [("re", ".js"), ("rei", r"\.js$")]
 ENTRIES = STR_ENTRIES + RE_ENTRIES
 PAIR_ENTRIES_QUICK = [("s", ".js"), ("s", ".py"), ("s", ".tar.gz"), ("re", r"^sub/"), ("re", r"(?i)\.js$")]
 PAIR_ENTRIES_THOROUGH = [("s", ".js"), ("s", ".JS"), ("s", ".py"), ("s", ".tar.gz"), ("s", ".c++"), ("s", ".min.js"),
@@ -140,10 +143,10 @@ FORMS = ["new", "deprecated", "settings_object"]
 _RX = {}
 
 
-def rx(p):
-    if p not in _RX:
-        _RX[p] = re.compile(p)
-    return _RX[p]
+def rx(p, flags=0):
+    if (p, flags) not in _RX:
+        _RX[(p, flags)] = re.compile(p, flags)
+    return _RX[(p, flags)]
 
 
 def lists_for(tier):
@@ -191,11 +194,11 @@ def configs(tier):
 def real_entries(lst):
     if lst is None:
         return None
-    return [e[1] if e[0] == "s" else rx(e[1]) for e in lst]
+    return [e[1] if e[0] == "s" else rx(e[1], re.I if e[0] == "rei" else 0) for e in lst]
 
 
 def entry_repr(e):
-    return ("%r" % e[1]) if e[0] == "s" else ("re(%r)" % e[1])
+    return ("%r" % e[1]) if e[0] == "s" else ("re(%r%s)" % (e[1], ", re.I" if e[0] == "rei" else ""))
 
 
 def list_repr(lst):
@@ -209,7 +212,7 @@ def _match(e, rel, dotted):
         if dotted and not s.startswith("."):
             s = "." + s
         return rel.rsplit("/", 1)[-1].endswith(s)
-    return rx(e[1]).search(rel) is not None
+    return rx(e[1], re.I if e[0] == "rei" else 0).search(rel) is not None
 
 
 def verdicts(allowed, forbidden, rel):
